@@ -45,6 +45,7 @@ import (
 	"crypto/md5"
 	"encoding/json"
 	"fmt"
+	"io"
 	"io/ioutil"
 	"net/http"
 	"net/http/httptest"
@@ -884,6 +885,230 @@ func c02CancelScenario(r *vrep.Report, s c02Scn, base string) {
 	}
 }
 
+
+// ---------------------------------------------------------------------------------------------
+// concurrent requests sharing the server's buffer pool ("shared" scenarios)
+//
+// An earlier request (none | an upload whose body stops arriving after 2 of 5 bytes | an upload whose
+// body fails at once | an upload with the wrong content | a GET of an absent block) is answered;
+// then PUT X runs and PUT Y (another block of the same or of another size) starts at X's k-th
+// filesystem point; every interleaving of their filesystem steps within the deviation bound.  The
+// handler, PutBlock, the pipe adapter, the volume and the real bufferPool (its limiter channel
+// instrumented, its sync.Pool replaced by the deterministic LIFO vsync.Pool) are shared by the
+// three requests, as in a running server.  Judged per block like every other scenario: an
+// acknowledged PUT is retrievable, complete, from a fresh handler; the index lists complete blocks.
+
+type c02Shared struct {
+	Kind      string `json:"kind"` // "shared"
+	Prelude   string `json:"prelude"`
+	SizeY     int    `json:"size_y"`
+	Serialize bool   `json:"serialize"`
+	K         int    `json:"k"`
+	Bound     int    `json:"bound"`
+}
+
+func (c c02Shared) name() string {
+	return fmt.Sprintf("shared:prelude=%s sizeY=%d serialize=%v", c.Prelude, c.SizeY, c.Serialize)
+}
+
+// c02FailingBody delivers data, then fails like a connection that went away.
+type c02FailingBody struct {
+	data []byte
+	off  int
+}
+
+func (b *c02FailingBody) Read(p []byte) (int, error) {
+	if b.off >= len(b.data) {
+		return 0, io.ErrUnexpectedEOF
+	}
+	n := copy(p, b.data[b.off:])
+	b.off += n
+	return n, nil
+}
+func (b *c02FailingBody) Close() error { return nil }
+
+func c02SharedRun(r *vrep.Report, base string, c c02Shared) (int, int64) {
+	X := c02Gen(11, 5)
+	Y := c02Gen(12, c.SizeY)
+	Z := c02Gen(13, 5)
+	HX, HY, HZ := c02MD5(X), c02MD5(Y), c02MD5(Z)
+	scn := c02Scn{Size: 5, Prev: "absent", Layout: "w", Serialize: c.Serialize}
+	var roots []string
+	var init []map[string]c02File
+	var codeX, codeY int
+	done, answered := false, false
+	npts := 0
+	body := func() {
+		done, answered = false, false
+		codeX, codeY = 0, 0
+		vsched.Quiet(true)
+		vfs.BranchOnlyAtPoints(true)
+		roots = scn.setup(base, X, HX)
+		init = make([]map[string]c02File, len(roots))
+		for p := range roots {
+			init[p] = c02Snapshot(roots[p])
+		}
+		e := c02NewEnv(scn, roots)
+		// a pool of its own per execution (small buffers: the blocks have 5 bytes), so that nothing
+		// an execution did to the pool reaches the next one
+		bufs = newBufferPool(c02Quiet, 2, 64)
+		defer func() { bufs = c02Pool }()
+		// the earlier request
+		preAnswered, preDone := false, true
+		if c.Prelude != "none" {
+			preDone = false
+			var req *http.Request
+			switch c.Prelude {
+			case "aborted-mid":
+				req = httptest.NewRequest("PUT", "/"+HZ, &c02FailingBody{data: Z[:2]})
+				req.ContentLength = int64(len(Z))
+			case "aborted-start":
+				req = httptest.NewRequest("PUT", "/"+HZ, &c02FailingBody{})
+				req.ContentLength = int64(len(Z))
+			case "wrong-content":
+				req = httptest.NewRequest("PUT", "/"+HZ, bytes.NewReader(X))
+			case "get404":
+				req = httptest.NewRequest("GET", "/"+HZ, nil)
+			default:
+				panic("c02: prelude " + c.Prelude)
+			}
+			rwA := &c02RW{onCode: func(int) { preAnswered = true }}
+			vsched.GoNamed("A:"+c.Prelude, func() {
+				e.rtr.ServeHTTP(rwA, req)
+				preAnswered, preDone = true, true
+			})
+			vsched.WaitUntil("earlier request answered", func() bool { return preAnswered })
+		}
+		// X and Y are judged once both have been ANSWERED; whether their handlers also return is
+		// recorded, not demanded (the statement is about what an answered PUT leaves on disk)
+		retX, retY := false, false
+		started := false
+		startY := func() {
+			started = true
+			vsched.GoNamed("PUT-Y", func() {
+				rw := &c02RW{onCode: func(code int) { codeY = code }}
+				e.rtr.ServeHTTP(rw, httptest.NewRequest("PUT", "/"+HY, bytes.NewReader(Y)))
+				codeY = rw.code
+				retY = true
+			})
+		}
+		vfs.Reset()
+		vfs.SetHook(func(n int, label string) {
+			if !started && n == c.K {
+				startY()
+			}
+		})
+		if c.K == 0 {
+			startY()
+		}
+		vsched.GoNamed("PUT-X", func() {
+			rw := &c02RW{onCode: func(code int) { codeX = code; npts = len(vfs.ExecPoints()) }}
+			e.rtr.ServeHTTP(rw, httptest.NewRequest("PUT", "/"+HX, bytes.NewReader(X)))
+			codeX = rw.code
+			retX = true
+			if !started {
+				npts = len(vfs.ExecPoints())
+			}
+		})
+		vsched.WaitUntil("X answered", func() bool { return codeX != 0 || retX })
+		if !started {
+			startY()
+		}
+		vsched.WaitUntil("Y answered", func() bool { return codeY != 0 || retY })
+		answered = true
+		vfs.SetHook(nil)
+		vfs.BranchOnlyAtPoints(false)
+		vsched.Quiet(true)
+		vsched.WaitUntil("handlers returned", func() bool { return retX && retY && preDone })
+		e.close()
+		done = true
+	}
+	vsched.BlockedSwitchCost = 1
+	defer vfs.BranchOnlyAtPoints(false)
+	opts := vsched.Options{Name: c.name() + fmt.Sprintf(" k=%d", c.K), Bound: c.Bound, Report: r, Params: c, MaxPoints: 6000, NoShard: true, DeadlockOK: true}
+	npoints := 0
+	first := true
+	st := vsched.Explore(opts, body, func(x *vsched.Result) {
+		vfs.SetHook(nil)
+		vfs.BranchOnlyAtPoints(false)
+		bufs = c02Pool
+		if first {
+			npoints = npts
+			first = false
+		}
+		r.Eval(1)
+		r.Traces++
+		r.Transitions += int64(len(x.Points))
+		if x.Horizon || x.Panic != "" || !answered {
+			r.Outcome("shared:not-judged(horizon or a request never answered)")
+			return
+		}
+		if !done {
+			// both requests were answered, some handler goroutine never returned: every task is
+			// blocked, the directories are quiescent and are judged as they are
+			r.Outcome("shared:a-handler-never-returned-after-answering")
+		}
+		rp := vsched.ReplayInfo(opts, x)
+		outX, shapeX, badX := c02Judge(scn, roots, init, X, HX, codeX)
+		outY, _, badY := c02Judge(scn, roots, init, Y, HY, codeY)
+		r.Outcome("shared:X:" + outX)
+		r.Outcome("shared:Y:" + outY)
+		r.Distinct(fmt.Sprintf("%s k=%d | %d %d | %s", c.name(), c.K, codeX, codeY, shapeX))
+		seen := map[string]bool{}
+		for i, v := range append(badX, badY...) {
+			who := "X"
+			if i >= len(badX) {
+				who = "Y"
+			}
+			sig := v.sig + ":shared:" + who + ":prelude=" + c.Prelude
+			if seen[sig] {
+				continue
+			}
+			seen[sig] = true
+			r.Violation(sig, fmt.Sprintf("%s: after the earlier request, PUT X (%s, 5 bytes) answered %d and PUT Y (%s, %d bytes, started at X's filesystem point %d) answered %d; judged for %s on a fresh handler: %s\nschedule: %v",
+				c.name(), HX, codeX, HY, c.SizeY, c.K, codeY, who, v.detail, x.Trace()), rp)
+		}
+	})
+	vfs.SetHook(nil)
+	return npoints, st.Executions
+}
+
+func c02SharedScenarios() []c02Shared {
+	var out []c02Shared
+	bound := 1
+	if vrep.Thorough() {
+		bound = 2
+	}
+	for _, pre := range []string{"aborted-mid", "aborted-start", "none", "wrong-content", "get404"} {
+		for _, sy := range []int{5, 3} {
+			for _, ser := range []bool{true, false} {
+				if !vrep.Thorough() && (pre == "get404" || (pre == "wrong-content" && sy == 3)) {
+					continue
+				}
+				out = append(out, c02Shared{Kind: "shared", Prelude: pre, SizeY: sy, Serialize: ser, Bound: bound})
+			}
+		}
+	}
+	return out
+}
+
+func c02SharedScenario(r *vrep.Report, c c02Shared, base string) {
+	probe := c
+	probe.K, probe.Bound = 1<<30, 0
+	n, _ := c02SharedRun(vrep.New("C02", "probe"), base, probe)
+	for k := 0; k <= n; k++ {
+		if r.OutOfBudget() {
+			r.NotExhaustive("time budget reached during the shared-pool enumeration")
+			return
+		}
+		cc := c
+		cc.K = k
+		_, ex := c02SharedRun(r, base, cc)
+		r.States += ex
+		r.AddExtra("shared_executions", ex)
+	}
+}
+
 // ---------------------------------------------------------------------------------------------
 
 func TestVerifC02(t *testing.T) {
@@ -917,12 +1142,36 @@ func TestVerifC02(t *testing.T) {
 			c02CancelRun(r, params.Params.Scn, base, params.Params.K, params.Params.Bound)
 			return
 		}
+		var sp struct {
+			Params c02Shared `json:"params"`
+		}
+		if vrep.ReplayDoc(&sp) && sp.Params.Kind == "shared" {
+			c02SharedRun(r, base, sp.Params)
+			return
+		}
 		t.Fatalf("replay document not understood")
 	}
 
 	scns := c02Scenarios()
 	only, filter := os.Getenv("VERIF_C02_ONLY"), os.Getenv("VERIF_C02_SCN") // manual debugging aids
 	var idx int64
+	// the shared-pool scenarios first (cheap)
+	if only == "" || only == "shared" {
+		shs := c02SharedScenarios()
+		for _, c := range shs {
+			idx++
+			if !vrep.Mine(idx) || !strings.Contains(c.name(), filter) {
+				continue
+			}
+			c02SharedScenario(r, c, base)
+		}
+		if sh, _ := vrep.Shard(); sh == 0 {
+			r.Extra("shared_scenarios", len(shs))
+		}
+	}
+	if only == "shared" {
+		return
+	}
 	for _, s := range scns {
 		idx++
 		if !vrep.Mine(idx) || !strings.Contains(s.String(), filter) {
